@@ -417,6 +417,12 @@ where
                                 .into(),
                             );
                             ldap.controls = Some(controls);
+                            // The result of the page just read is not the result of the
+                            // search: finish() before the end must report cancellation. This
+                            // must hold from here on, since this call can be given up while
+                            // the next page is being requested; the search can't be resumed
+                            // after that, as the server may or may not have seen the cookie.
+                            stream.res = None;
                             let new_stream = match ldap
                                 .streaming_search(
                                     &self.base,
@@ -427,12 +433,7 @@ where
                                 .await
                             {
                                 Ok(strm) => strm,
-                                Err(e) => {
-                                    // The search as a whole has failed; the result of the
-                                    // page just read is not its result.
-                                    stream.res = None;
-                                    return Err(e);
-                                }
+                                Err(e) => return Err(e),
                             };
                             // Again, we're replacing the innards of the original stream with
                             // the contents of the new one.
@@ -449,9 +450,6 @@ where
                             stream.ldap.search_opts = parked.2;
                             stream.rx = new_stream.rx;
                             stream.msgid = new_stream.msgid;
-                            // The result of the page just read is not the result of the
-                            // search: finish() before the end must report cancellation.
-                            stream.res = None;
                             continue 'ent;
                         }
                     }
